@@ -25,6 +25,7 @@ const (
 )
 
 func TestMain(m *testing.M) {
+	isolate.RedirectFuzzWorkerStderr()
 	if isolate.IsWorker() {
 		isolate.Serve(handleRos)
 		return
